@@ -42,3 +42,7 @@ class Worker:
 
 def rtsim_worker():
     return Worker('worker_rtsim.py', [SC3_PATH])
+
+
+def nrt_worker(hashseed='0'):
+    return Worker('worker_nrt.py', [SC3_PATH], {'PYTHONHASHSEED': hashseed})
